@@ -132,10 +132,18 @@ def run(rep: Report) -> None:
     # class-table difference
     vsl = prog.find_class("sym_metanet.blocks.links", "LinkWithVsl")
     allowed = {"__init__", "init_vars", "_get_equilibrium_speed"}
-    extra = sorted(set(vsl.methods) - allowed)
+    link_ci = prog.find_class("sym_metanet.blocks.links", "Link")
+    inherited = set()
+    for c in prog.mro(link_ci.fq):
+        inherited |= set(prog.classes[c].methods)
+    extra = sorted((set(vsl.methods) & inherited) - allowed)  # (new helper methods are not overrides)
     rep.check(not extra, "vsl-class-diff", "LinkWithVsl overrides", f"{prog.modules[vsl.module].relpath}:{vsl.node.lineno}",
               f"LinkWithVsl also overrides {extra}: with equal equilibrium speed it no longer is Link's step",
               key="vsl-class")
+    # a link with signs handles the positive_* options of a step exactly like a plain link
+    from . import c11 as _c11
+
+    _c11.run(rep, only_cls="LinkWithVsl")
     from .. import ctor
 
     ctor.check(rep, groups=("vsl", "origin"))
